@@ -18,6 +18,13 @@ import (
 func fn(w *core.World, r *core.Report, name string) *ssa.Function {
 	f := w.Func(name)
 	if f == nil {
+		// folded into its only caller: the obligation is looked for there
+		if c, ok := pinnedSoleCaller[name]; ok {
+			if g := w.Func(c); g != nil {
+				r.Analysed(c)
+				return g
+			}
+		}
 		r.Unresolved(name, "function %s not found in /repo (renamed or removed): the obligation cannot be located", name)
 		return nil
 	}
@@ -470,7 +477,7 @@ func ruleRetryHelper(w *core.World, r *core.Report, name string) {
 				// allowed only when the last attempt is known to have succeeded
 				succeeded := false
 				for _, fct := range p.Conds {
-					c, ok := core.AsCmp(fct.Cond, fct.Val)
+					c, ok := core.FactCmp(fct)
 					if ok && c.Op == token.EQL && core.Unwrap(p.Resolve(c.X)) == ssa.Value(last) && core.IsNilConst(c.Y) {
 						succeeded = true
 					}
@@ -678,4 +685,96 @@ func orderingTableP(head *ssa.BasicBlock, replaces func(p *core.Path) bool, clas
 		}
 	})
 	return
+}
+
+
+// reachableFuncs: root, its closures, and every function of the same package it
+// calls statically or refers to as a value (a callback handed to a library
+// function, a bound method), transitively.
+func reachableFuncs(root *ssa.Function) []*ssa.Function {
+	pkgOf := func(f *ssa.Function) *ssa.Package {
+		for f.Parent() != nil {
+			f = f.Parent()
+		}
+		if f.Pkg != nil {
+			return f.Pkg
+		}
+		// a synthetic wrapper (bound method): the package of the method it wraps
+		for _, b := range f.Blocks {
+			for _, in := range b.Instrs {
+				if c, ok := in.(ssa.CallInstruction); ok {
+					if g := c.Common().StaticCallee(); g != nil && g.Pkg != nil {
+						return g.Pkg
+					}
+				}
+			}
+		}
+		return nil
+	}
+	home := pkgOf(root)
+	seen := map[*ssa.Function]bool{root: true}
+	out := []*ssa.Function{root}
+	add := func(g *ssa.Function) {
+		if g == nil || seen[g] || len(g.Blocks) == 0 || pkgOf(g) != home {
+			return
+		}
+		seen[g] = true
+		out = append(out, g)
+	}
+	for i := 0; i < len(out); i++ {
+		f := out[i]
+		for _, a := range f.AnonFuncs {
+			add(a)
+		}
+		for _, b := range f.Blocks {
+			for _, in := range b.Instrs {
+				if c, ok := in.(ssa.CallInstruction); ok {
+					add(c.Common().StaticCallee())
+				}
+				for _, op := range in.Operands(nil) {
+					if op == nil || *op == nil {
+						continue
+					}
+					switch v := (*op).(type) {
+					case *ssa.Function:
+						add(v)
+					case *ssa.MakeClosure:
+						if g, ok := v.Fn.(*ssa.Function); ok {
+							add(g)
+						}
+					}
+				}
+			}
+		}
+	}
+	return out
+}
+
+
+// argValues: v itself, or, when v is a parameter of a closure nested in top,
+// the values passed in that position at every call of the closure.
+func argValues(v ssa.Value, top *ssa.Function) []ssa.Value {
+	par, ok := core.Unwrap(v).(*ssa.Parameter)
+	if !ok || par.Parent() == nil || par.Parent().Parent() == nil {
+		return []ssa.Value{v}
+	}
+	g := par.Parent()
+	k := -1
+	for i, q := range g.Params {
+		if q == par {
+			k = i
+		}
+	}
+	var out []ssa.Value
+	for _, h := range core.DeepFuncs(top) {
+		for _, s := range core.Sites(h, false) {
+			if s.Callee == g && s.Instr.Parent() == h && k < len(s.Common().Args) {
+				out = append(out, s.Common().Args[k])
+			}
+		}
+	}
+	if len(out) == 0 {
+		return []ssa.Value{v}
+	}
+	return out
 }
